@@ -5,7 +5,7 @@ import itertools
 
 from ..core import Prop, Violation
 from .. import cffl
-from ..cffl import GATES, VERDICTS, Ob, cfg_line, BUDGETS, BIG_ADVANCES, DAY, real_prompt, EXC_TOKENS
+from ..cffl import GATES, VERDICTS, Ob, cfg_line, BUDGETS, BIG_ADVANCES, DAY, real_prompt, EXC_TOKENS, vd
 from ..extract import e2, py2lean_breaker
 from .. import core
 
@@ -20,7 +20,12 @@ OUTCOME = {"succ": ("EXECUTE", "PERMIT"), "block": ("EXECUTE", "BLOCK"), "skip":
            # raises (the exception cannot be rendered), and - not an `Exception` at all - a BaseException
            "excK": ("excK", "PERMIT"), "excR": ("excR", "PERMIT"), "excS": ("excS", "PERMIT"),
            "yexcS": ("EXECUTE", "excS"), "yexcK": ("PERMIT", "excK"), "excB": ("excB", "PERMIT"),
-           "yexcB": ("EXECUTE", "excB")}
+           "yexcB": ("EXECUTE", "excB"),
+           # verdicts whose payload cannot be rendered (ActionProtein.payload is `Any`)
+           "ufail": ("u:FAILURE", "PERMIT"), "ufail2": ("u:FAILURE", "DEFER"), "ublock": ("EXECUTE", "u:BLOCK"),
+           "usucc": ("u:EXECUTE", "PERMIT"), "upermit": ("EXECUTE", "u:PERMIT"), "uskip": ("u:BLOCK", "PERMIT")}
+FINDING = "C08-unrenderable-payload-failure-uncounted"
+FINDING_CLAUSE = "executor_failure_with_unrenderable_payload_counts"
 RAISED = ("exc", "excS")          # what the recorder reports for an agent that raised an Exception (renderable / not)
 HOOKS = ["none", "ok", "raise"]
 
@@ -36,6 +41,7 @@ def outcome_class(gate, z, y, o: Ob):
         return "open"          # no agent consulted although the request was let in: judged by `admitted_request_consults_agents`
     if z in RAISED or y in RAISED:
         return "fail"          # "agent exception", whatever its class and whether or not it can be rendered as text
+    z, y = vd(z), vd(y)        # (whether a payload can be rendered is no part of the verdict)
     if not o.blocked:
         return "succ"
     if z == "FAILURE" and y != "BLOCK":
@@ -58,9 +64,9 @@ class C08(Prop):
                     + [f"act:{a}" for a in ("SUCCESS", "BLOCKED", "FAILURE", "SKIPPED", "ERROR")]
                     + ["set:thr", "set:tmo"])
     assumptions = [
-        "agents return a well-formed ActionProtein (str action_type, str()-able payload) or raise an Exception; they do "
-        "not call back into the loop (a malformed return value makes run() raise outside its handler: no failure is "
-        "recorded for it; not modelled)",
+        "agents return an ActionProtein with a str action_type (any payload: one that cannot be rendered is modelled - runP - "
+        "and is the trigger of the open finding C08-unrenderable-payload-failure-uncounted) or raise; they do not call back "
+        "into the loop (a return value that is no ActionProtein makes run() raise outside its handler; not modelled)",
         "'executor failure' is a failure outcome unless the assessor votes BLOCK (intentional block) or, under OR logic, "
         "the assessor PERMITs (the request then passes and is a success): c08_executor_failure_outcome",
         "the clock is the module-level `datetime` of operon_ai.topology.loops (substituted by a virtual clock); "
@@ -79,6 +85,7 @@ class C08(Prop):
 
     def setup(self, ctx):
         self.impl = cffl.Impl()
+        self._finding_only = {}
 
     def extract(self, ctx):
         return e2.extract() + py2lean_breaker.run(core.REPO, core.LEAN, core.write_if_changed)
@@ -164,7 +171,8 @@ class C08(Prop):
         return {"lines": lines, "note": "built-in agents"}
 
     def generate(self, rng, tier, n):
-        names = ["succ", "block", "skip", "efail", "exc", "yexc", "mismatch", "hit", "excS", "excK", "excR", "yexcS", "excB", "yexcB"]
+        names = ["succ", "block", "skip", "efail", "exc", "yexc", "mismatch", "hit", "excS", "excK", "excR", "yexcS", "excB", "yexcB",
+                 "ufail", "ufail2", "ublock", "usucc", "upermit", "uskip"]
         for i in range(n):
             if i % 3 == 0:
                 yield self._probe_scenario(rng)
@@ -188,7 +196,7 @@ class C08(Prop):
                     if rng.random() < 0.75:
                         ev.append(rng.choice(names + ["efail", "exc", "efail", "succ", "block"]))
                     else:
-                        vs = VERDICTS + ["exc", "weird"] + list(EXC_TOKENS)
+                        vs = VERDICTS + ["exc", "weird"] + list(EXC_TOKENS) + ["u:" + v for v in VERDICTS]
                         ev.append(rng.choice(vs) + "/" + rng.choice(vs))
                 elif u < 0.92:
                     t = abs(tmo)
@@ -252,9 +260,16 @@ class C08(Prop):
             for kind in ("excB", "yexcB"):
                 hooks.append(self._history(["succ"] + [kind] * thr + ["succ", "efail"], thr,
                                            note="an agent's BaseException passes through run()"))
+            for gate in GATES:
+                for kind in ("ufail", "ufail2", "ublock", "usucc", "upermit", "uskip", "u:DEFER/u:DEFER"):
+                    for loud in (False, True):
+                        hooks.append(self._history(([("set", "silent", 0)] if loud else []) + ["succ"] + [kind] * thr
+                                                   + ["succ", ("adv", TMO), kind, "succ", "efail"], thr, gate=gate,
+                                                   note="verdicts whose payload cannot be rendered"))
         return [{"name": "agent exception kinds {RuntimeError, KeyError(), __repr__ raises, __str__ raises; executor / "
                          "assessor} and executor FAILURE x on_block / on_permit callbacks {unset, returns, raises} x thresholds "
-                         "1..3: trip, isolate, probe after the timeout", "cases": hooks},
+                         "1..3: trip, isolate, probe after the timeout; 6 gate logics x 7 verdict pairs with unrenderable "
+                         "payloads x console on / off x thresholds 1..3", "cases": hooks},
                 {"name": "trip, advance by 1 day / 7 days / 400 days (and 1 us or a few seconds around them), probe; "
                          "9 small budgets x thresholds 1..3", "cases": big},
                 {"name": f"all histories of length <= {depth} over {{success, intentional block, executor failure, "
@@ -365,6 +380,22 @@ class C08(Prop):
                     streak = 0
                     prev = o
                     continue
+                if no_reply and not agent_raised and (str(z).startswith("u:") or str(y).startswith("u:")):
+                    # both agents answered, a payload could not be rendered and run() raised out of the gate.  By the text
+                    # the outcome is what the VERDICTS say: an executor FAILURE nobody vetoed is a failure and must count
+                    # (open finding: the code records nothing); anything else must at least not count as a failure
+                    if vd(z) == "FAILURE" and vd(y) != "BLOCK" and not (gate == "or" and vd(y) == "PERMIT"):
+                        if o.failures == p_fail and not (probing and o.state == "open"):
+                            V(FINDING_CLAUSE, f"failure counted (failures={p_fail + 1})", raw, idx)
+                        else:
+                            since_clear += 1
+                            last_fail_at = now
+                    elif o.failures != p_fail:
+                        V("intentional_block_not_a_failure" if "BLOCK" in (vd(z), vd(y)) else "unreplied_request_not_a_failure",
+                          f"failures={p_fail}", raw, idx)
+                    streak = 0
+                    prev = o
+                    continue
                 if (no_reply and not agent_raised) or o.cached:
                     # no agent was consulted, so this is neither a success nor a failure and in particular not a probe:
                     # it moves no failure field and cannot close (or open) the breaker; the only state change allowed
@@ -411,7 +442,15 @@ class C08(Prop):
                                 V("successful_probe_closes_and_clears", "closed 0", raw, idx)
                             since_clear = 0
             prev = o
+        self._finding_only[tuple(case["lines"])] = bool(out) and all(v.clause == FINDING_CLAUSE for v in out)
         return out
+
+    def trigger(self, case):
+        """open finding C08-unrenderable-payload-failure-uncounted: a line scripts a verdict whose payload cannot be rendered
+        and the only violated clause is that an executor FAILURE on a request whose rendering failed was not counted"""
+        if any(" u:" in l for l in case["lines"]) and self._finding_only.get(tuple(case["lines"])):
+            return FINDING
+        return None
 
     def nontrivial(self, case, obs):
         return any((" open " in o or " half_open " in o) for o in obs)
